@@ -17,5 +17,6 @@ CFG = dict(
              "crop_spec is for identity-indexed point clouds: CropFloat3Attribute ignores the incoming indices (observation, see notes/C03.md)",
              "IEEE rounding of the transform maps; Tri.Area3D (keep decision passed to the model); SliceByPlane, ScaleAttributeAlongNormal, 2-D variants, "
              "SmoothNormalsImplicitWeld, LaplacianSmoothAlongAxis not modelled"],
-    assumptions=["float64 arithmetic in Go on amd64 is IEEE-754 without FMA contraction (transform maps are compared bit-for-bit)"],
+    assumptions=["float64 arithmetic in Go on amd64 is IEEE-754 without FMA contraction (transform maps are compared bit-for-bit)",
+                 "Go int(float64) of NaN / out-of-range values is math.MinInt64 (amd64 CVTTSD2SI), mirrored by the driver's weld key"],
 )
